@@ -1,5 +1,5 @@
 P = "github.com/tochemey/goakt/v4/actor."
-SUB = {"(*" + P + "PID).Tell": P + "vT_tell"}
+SUB = {"(*" + P + "PID).Tell": P + "vT_tell", "(*" + P + "PID).Equals": P + "vT_equals"}
 CHECK = {
     "id": "C10",
     "packages": ["./actor"],
@@ -7,7 +7,7 @@ CHECK = {
     "entries": [
         {"fn": P + "vC10_sequence", "replay": "model-only"},
     ],
-    "opts": {"unwind": 8, "substitute": SUB, "loop_bounds": {"strings.EqualFold": 12}},
+    "opts": {"unwind": 24, "substitute": SUB, "feasibility": "light", "map_range": "per_entry", "map_dedup": True},
     "stop": list(SUB.keys()),
     "explanation": "TODO",
     "bounds": {},
